@@ -31,10 +31,13 @@ def gen_run(dfols, seed_tuple, allow=None, alarm=10.0, mutate_cfg=None, fault=No
 
 
 def lean_accept(runs):
-    """runs: list of (maxfun, hasH, trace) -> list of reply strings (one per run)"""
+    """runs: list of (maxfun, hasH, trace[, max_unsucc, abs_tol]) -> list of reply strings (one per run)"""
     lines = []
-    for maxfun, hasH, t in runs:
-        lines.append("begin %d %d" % (maxfun, 1 if hasH else 0))
+    for run in runs:
+        maxfun, hasH, t = run[0], run[1], run[2]
+        mu = run[3] if len(run) > 3 else 10
+        at = run[4] if len(run) > 4 else 1e-12
+        lines.append("begin %d %d %d %s" % (maxfun, 1 if hasH else 0, mu, core.fkey(at)))
         for e in t.events:
             lines.append(tr.render(e))
         lines.append("end")
@@ -96,7 +99,9 @@ def run_trace_property(ctx, acc_name, n_quick, n_thorough, suite_const, oracle, 
         elif t.result is not None:
             k = so.exit_route(t)
             stats["flags"][k] = stats["flags"].get(k, 0) + 1
-        runs.append((kw["maxfun"], bool(d.get("regu")), t))
+        up = kw.get("user_params", {}) or {}
+        runs.append((kw["maxfun"], bool(d.get("regu")), t, int(up.get("restarts.max_unsuccessful_restarts", 10)),
+                     float(up.get("model.abs_tol", 1e-12))))
         metas.append((seed, prob, kw, d, t, fault))
         if i < 2:
             ctx.add_sample({"config": describe(d), "n_events": len(t.events),
